@@ -24,6 +24,7 @@ from __future__ import annotations
 
 import itertools
 import logging
+import re
 from collections import deque
 from typing import TYPE_CHECKING, MutableSequence, Iterable, Any
 
@@ -203,7 +204,12 @@ def singleline_string_literal(string: str) -> str:
 
 def multiline_string_literal(string: str) -> str:
     string = str(string)[3:-3]
-    all_lines = string.splitlines()
+    # Not str.splitlines(): that also splits at VT, FF, FS, GS, RS, NEL, LS and PS, which are ordinary characters of the
+    # string (the decompiler only breaks multi-line strings at "\n").
+    all_lines = re.split("\r\n|\n", string)
+    if len(all_lines) > 0 and all_lines[-1] == "":
+        # splitlines() semantics: a trailing line break does not start another (empty) line
+        all_lines.pop()
     lines: list[str] = []
     last_line = ""
 
